@@ -158,7 +158,10 @@ def handle (ws : List String) : String :=
       | "poolTerminate" => some .poolTerminate | "closeBkg" => some .closeBkg | "unlinkBkg" => some .unlinkBkg
       | "closeRms" => some .closeRms | "unlinkRms" => some .unlinkRms | _ => none
     match evs.mapM ev?, (if outcome == "normal" then some Outcome.normal else if outcome == "raised" then some .raised else none) with
-    | some t, some o => if parentProg.runs.contains (t, o) then "ok" else "notapath"
+    | some t, some o =>
+      let path := if parentProg.runs.contains (t, o) then "ok" else "outside"
+      let spec := if Aegean.Spec.C07.releasedOK t then "ok" else "violated"
+      s!"path={path} spec={spec}"
     | _, _ => "bad-op"
   | "trace" :: reset :: abort :: n :: parties :: slots :: mask :: evs =>
     match reset.toNat?, abort.toNat?, n.toNat?, parties.toNat?, slots.toNat?, mask.toNat? with
